@@ -2400,7 +2400,7 @@ class Model:
         rhs_by_time = {}
         for time, variables in args.iterrows():
             rhs_by_time[time] = self._get_right_hand_side(
-                args=variables.to_dict(),
+                args=variables.to_dict() | {"time": cast(float, time)},
                 var_names=var_names,
                 cache=cache,
             )
